@@ -55,7 +55,8 @@ def derivations(draw, g):
         if k == "alt":
             alts = e[1]
             if depth >= MAX_DEPTH:
-                return d(alts[-1] if len(alts) else alts[0], depth + 1)
+                # generated recursion never sits in the first alternative
+                return d(alts[0], depth + 1)
             return d(draw(st.sampled_from(alts)), depth)
         if k == "opt":
             if depth >= MAX_DEPTH or not draw(st.booleans()):
